@@ -41,6 +41,9 @@ def name_sets(m):
     yield ('absent', None, None, '\n')
     yield ('plain', plain_c, plain_r, '\n')
     yield ('crlf', plain_c, plain_r, '\r\n')
+    # mixed line ends (a file edited on two systems): CRLF lines first, the last lines end in a plain LF; names of different
+    # lengths so that a lost final character produces a collision or a visibly shorter name
+    yield ('mixed-eol', ['z%s' % ('2' * (i + 1)) for i in range(nv)], ['Row%s' % ('x' * (i + 1)) for i in range(nc)] + ['Total%d' % (i + 1) for i in range(no)], 'mixed')
     yield ('short', plain_c[:max(0, nv - 1)], plain_r[:max(0, nc + no - 1)], '\n')
     yield ('col-only', plain_c, None, '\n')
     # look-alikes of derived names
@@ -153,8 +156,11 @@ def judge(m, run, mode, label, col, row, grecs=None):
 def one(job):
     binary, idx, fam, name, m, accname, mode, label, col, row, nlsep = job
     wd = os.path.join(WORK, 'r%06d' % idx)
-    colt = None if col is None else ''.join(n + nlsep for n in col)
-    rowt = None if row is None else ''.join(n + nlsep for n in row)
+    def text(names):
+        if names is None: return None
+        if nlsep != 'mixed': return ''.join(n + nlsep for n in names)
+        return ''.join(n + ('\r\n' if i < len(names) - 1 else '\n') for i, n in enumerate(names))
+    colt = text(col); rowt = text(row)
     gfile = os.path.join(wd, 'g.jsonl')
     run = vdriverlib.run(binary, wd, nl_text=m.nl(), script={'acc': ACC[accname], 'code': 0},
                          env_opts={'vdriver_options': 'cvt:names=%d cvt:writegraph=%s' % (mode, gfile)}, col=colt, row=rowt)
